@@ -40,6 +40,21 @@ impl<'a> G<'a> {
         }
     }
 
+    /// a condition whose decided operand skips a sub-expression that itself contains a short
+    /// circuit followed by something that must not be evaluated (a division by zero, an unset
+    /// variable): the nesting of skipped operands
+    fn nested_skip(&mut self) -> Term {
+        let (op, l) = if self.rng.chance(1, 2) { ("||", lit(1)) } else { ("&&", lit(0)) };
+        let inner = bin(["&&", "||"][self.rng.below(2)], self.expr(1), self.expr(1));
+        let risky = match self.rng.below(3) {
+            0 => bin("/", lit(1), lit(0)),
+            1 => var("nosuch"),
+            _ => bin("%", var(IVARS[self.rng.below(IVARS.len())]), lit(0)),
+        };
+        let mid = bin(["+", "<", "/", "||"][self.rng.below(4)], inner, risky);
+        bin(op, l, mid)
+    }
+
     fn block(&mut self, depth: usize, in_loop: bool, in_proc: bool) -> Term {
         let n = self.rng.below(4);
         let mut v = Vec::new();
@@ -86,7 +101,7 @@ impl<'a> G<'a> {
                 // if: 1-3 clauses, optional else, keyword style 0..3
                 let nc = 1 + self.rng.below(3);
                 let clauses: Vec<Term> =
-                    (0..nc).map(|_| tl(vec![self.expr(2), self.block(depth - 1, in_loop, in_proc)])).collect();
+                    (0..nc).map(|_| tl(vec![if self.rng.chance(1, 6) { self.nested_skip() } else { self.expr(2) }, self.block(depth - 1, in_loop, in_proc)])).collect();
                 let els = if self.rng.chance(1, 2) { tl(vec![self.block(depth - 1, in_loop, in_proc)]) } else { tl(vec![]) };
                 tag("if", vec![tl(clauses), els, ti(self.rng.below(4) as i64)])
             }
